@@ -70,6 +70,11 @@ class Symbol(ILispObject, INamed, IWithMeta):
     def __hash__(self):
         return self._hash
 
+    def __reduce__(self):
+        # `_hash` depends on this process's string hash seed: rebuild the symbol (and
+        # its hash) in the process which unpickles it rather than copying the slot
+        return Symbol, (self._name, self._ns, self._meta)
+
     def __lt__(self, other):
         if other is None:  # pragma: no cover
             return False
